@@ -84,6 +84,19 @@ theorem freq_ascending_within_tenth {K : Type} [Field K] [LinearOrder K] [IsStri
   have ha := (rint_near (re a * 10)).1
   have hb := (rint_near (re b * 10)).2
   linarith
+/-- ... in particular the FIRST returned frequency (the one users read as the fundamental) exceeds no other returned
+frequency by more than 0.1. -/
+theorem first_frequency_fundamental_within_tenth {K : Type} [Field K] [LinearOrder K] [IsStrictOrderedRing K]
+    [FloorRing K] {F : Type} [Zero F] (re im : F → K) (vals : List F) (vecs : Block F) (out : Out F F)
+    (h : sortStep re im vals vecs = .ok out) (w0 : F) (rest : List F) (hv : out.vals = w0 :: rest) :
+    ∀ w ∈ out.vals, re w0 ≤ re w + 1 / 10 := by
+  have hp := freq_ascending_within_tenth re im vals vecs out h
+  rw [hv] at hp ⊢
+  intro w hw
+  rcases List.mem_cons.1 hw with rfl | hw
+  · have : (0 : K) < 1 / 10 := by norm_num
+    linarith
+  · exact (List.pairwise_cons.1 hp).1 w hw
 /-- rounding facts behind the two statements above: `rint` (round half to even) is monotone, and separates
 arguments more than one unit apart. -/
 theorem rint_monotone_and_separating {K : Type} [Field K] [LinearOrder K] [IsStrictOrderedRing K]
